@@ -27,6 +27,7 @@ type c10Op struct {
 	Delay      time.Duration // after: time between the call's return and the cancellation; deadline-after: the timeout
 	Pause      time.Duration // pause before the next op
 	Block      string        // for *-during reads: nothing | first-fragment | partial-payload | partial-header
+	Beside     string        // for *-during writes: "" | ping | peer-ping: a control frame queued behind the blocked write
 }
 
 type c10Case struct {
@@ -51,6 +52,7 @@ func genC10(rt *rapid.T) c10Case {
 		if i == n-1 && during {
 			o.Ctx = rapid.SampledFrom([]string{"cancel-during", "deadline-during"}).Draw(rt, "ctxDuring")
 			o.Block = rapid.SampledFrom([]string{"nothing", "first-fragment", "partial-payload", "partial-header"}).Draw(rt, "block")
+			o.Beside = rapid.SampledFrom([]string{"", "ping", "peer-ping"}).Draw(rt, "beside")
 			if o.Len < 3 {
 				o.Len = 300
 			}
@@ -271,6 +273,21 @@ func runC10(t fataler, c c10Case) (string, c10Result) {
 		if during {
 			res.During = true
 			synctest.Wait() // the call is now blocked
+			if o.Kind == "write" && o.Beside != "" {
+				// a control frame with a context of its own queues behind the blocked write
+				switch o.Beside {
+				case "ping":
+					e.Go(func() {
+						pctx, pcancel := context.WithTimeout(base, 30*time.Second)
+						defer pcancel()
+						conn.Ping(pctx)
+					})
+				case "peer-ping":
+					e.Go(func() { conn.Read(base) }) // a reader that will answer the peer's Ping
+					p.send(ref.Frame{Fin: true, Opcode: ref.OpPing, Payload: []byte("are you there")})
+				}
+				synctest.Wait()
+			}
 			select {
 			case <-done:
 				return fmt.Sprintf("op %d (%s, %s) returned before its context ended although the peer withheld what it waits for (err=%v)", i, o.Kind, o.Block, opErr), res
